@@ -479,9 +479,10 @@ Definition exp_or_else (s : var) (g : Z -> bool * Z) : res (bool * Z) :=
   if exp_has_value s then rbind (exp_deref s) (fun v => Ok (true, v))
   else rbind (exp_error s) (fun e => Ok (g e)).
 
-(** * optional<T&> : a pointer cell.  Referents are numbered cells; None = nullptr *)
-Record rstate := { cells : list Z; pa : option nat; pb : option nat }.
-
+(** * optional<T&> : a pointer cell (T* _ptr).  None = nullptr; a non-null pointer refers to one
+   of the numbered referent cells or to the object contained in the source optional<T0> [src]
+   (the storage of alternative 1 of its variant: the object is there iff src is engaged) *)
+Record rstate := { cells : list Z; src : var; pa : option rtgt; pb : option rtgt; pz : option rtgt }.
 
 Fixpoint set_nth (l : list Z) (i : nat) (v : Z) : list Z :=
   match l, i with
@@ -490,34 +491,75 @@ Fixpoint set_nth (l : list Z) (i : nat) (v : Z) : list Z :=
   | a :: r, S k => a :: set_nth r k v
   end.
 
-Definition rpick (t : bool) (s : rstate) : option nat * option nat := if t then (pb s, pa s) else (pa s, pb s).
-Definition rput (t : bool) (cs : list Z) (x y : option nat) : rstate :=
-  if t then {| cells := cs; pa := y; pb := x |} else {| cells := cs; pa := x; pb := y |}.
+Definition rpick (t : bool) (s : rstate) : option rtgt * option rtgt := if t then (pb s, pa s) else (pa s, pb s).
+Definition rput (t : bool) (cs : list Z) (sr : var) (x y z : option rtgt) : rstate :=
+  if t then {| cells := cs; src := sr; pa := y; pb := x; pz := z |}
+  else {| cells := cs; src := sr; pa := x; pb := y; pz := z |}.
 
-Definition rstep (s : rstate) (o : rop) : res rstate :=
+(* optional<T&>::operator*: TETL_PRECONDITION(has_value()); *_ptr -- as an lvalue (what it designates) *)
+Definition ref_star (p : option rtgt) : res rtgt := match p with Some g => Ok g | None => Contract end.
+
+(* optional<T&>(optional<U> const& rhs) : _ptr(rhs.has_value() ? addressof( *rhs) : nullptr), rhs = src
+   (U = T0: *rhs is optional<T0>::operator* with its own precondition, the contained object) *)
+Definition ref_from_opt (sr : var) : res (option rtgt) :=
+  if has_value sr then rbind (opt_deref sr) (fun _ => Ok (Some RSrc)) else Ok None.
+
+(* the same constructor with rhs = z of type optional<T0&> (U = T0&): *rhs is the referent of z *)
+Definition ref_from_ref (z : option rtgt) : res (option rtgt) :=
+  match z with Some _ => rbind (ref_star z) (fun g => Ok (Some g)) | None => Ok None end.
+
+(* an lvalue obtained from an optional<T&> is read / written *)
+Definition tgt_read (cs : list Z) (sr : var) (g : rtgt) : res Z :=
+  match g with
+  | RCell c => match nth_error cs c with Some v => Ok v | None => UB OutOfBounds end
+  | RSrc => if has_value sr then Ok (val sr) else UB UninitRead      (* the contained object is gone: dangling *)
+  end.
+
+Definition rstep (T : ty) (s : rstate) (o : rop) : res rstate :=
   match o with
-  | RBind t c => let '(_, y) := rpick t s in Ok (rput t (cells s) (Some c) y)     (* _ptr = addressof(v) *)
-  | RNull t => let '(_, y) := rpick t s in Ok (rput t (cells s) None y)          (* _ptr = nullptr *)
-  | RCopy t => let '(_, y) := rpick t s in Ok (rput t (cells s) y y)
-  | RSwap => Ok {| cells := cells s; pa := pb s; pb := pa s |}
+  | RBind t c => let '(_, y) := rpick t s in Ok (rput t (cells s) (src s) (Some (RCell c)) y (pz s))  (* _ptr = addressof(v) *)
+  | RNull t => let '(_, y) := rpick t s in Ok (rput t (cells s) (src s) None y (pz s))          (* _ptr = nullptr *)
+  | RCopy t => let '(_, y) := rpick t s in Ok (rput t (cells s) (src s) y y (pz s))
+  | RSwap => Ok {| cells := cells s; src := src s; pa := pb s; pb := pa s; pz := pz s |}
   | RWrite t v =>
     let '(x, y) := rpick t s in
     match x with
-    | Some c => Ok (rput t (set_nth (cells s) c v) x y)   (* operator*: TETL_PRECONDITION(has_value()) *)
+    | Some _ =>
+      rbind (ref_star x) (fun g =>                          (* operator*: TETL_PRECONDITION(has_value()) *)
+        match g with
+        | RCell c => Ok (rput t (set_nth (cells s) c v) (src s) x y (pz s))
+        | RSrc => if has_value (src s) then Ok (rput t (cells s) {| idx := idx (src s); val := v |} x y (pz s))
+                  else UB UninitRead
+        end)
     | None => Ok s
     end
-  | RSelf t => let '(x, y) := rpick t s in Ok (rput t (cells s) x y)
+  | RSelf t => let '(x, y) := rpick t s in Ok (rput t (cells s) (src s) x y (pz s))
+  | RCellSet c v => Ok {| cells := set_nth (cells s) c v; src := src s; pa := pa s; pb := pb s; pz := pz s |}
+  | RFromOpt t =>
+    let '(_, y) := rpick t s in
+    rbind (ref_from_opt (src s)) (fun tmp => Ok (rput t (cells s) (src s) tmp y (pz s)))
+  | RFromRef t =>
+    let '(_, y) := rpick t s in
+    rbind (ref_from_ref (pz s)) (fun tmp => Ok (rput t (cells s) (src s) tmp y (pz s)))
+  | RZBind c => Ok {| cells := cells s; src := src s; pa := pa s; pb := pb s; pz := Some (RCell c) |}
+  | RZNull => Ok {| cells := cells s; src := src s; pa := pa s; pb := pb s; pz := None |}
+  | RSrcAssign v =>
+    rbind (opt_assign_value T (src s) T v) (fun sr => Ok {| cells := cells s; src := sr; pa := pa s; pb := pb s; pz := pz s |})
+  | RSrcEmplace v =>
+    rbind (opt_emplace T (src s) v) (fun sr => Ok {| cells := cells s; src := sr; pa := pa s; pb := pb s; pz := pz s |})
+  | RSrcReset =>
+    rbind (opt_reset T (src s)) (fun sr => Ok {| cells := cells s; src := sr; pa := pa s; pb := pb s; pz := pz s |})
   end.
 
-Fixpoint rrun (s : rstate) (ops : list rop) : res rstate :=
+Fixpoint rrun (T : ty) (s : rstate) (ops : list rop) : res rstate :=
   match ops with
   | [] => Ok s
-  | o :: r => rbind (rstep s o) (fun s' => rrun s' r)
+  | o :: r => rbind (rstep T s o) (fun s' => rrun T s' r)
   end.
 
-(* operator*: TETL_PRECONDITION(has_value()); *_ptr *)
-Definition ref_deref (cs : list Z) (p : option nat) : res Z :=
-  match p with Some c => (match nth_error cs c with Some v => Ok v | None => UB OutOfBounds end) | None => Contract end.
+(* the value read through an optional<T&>: operator* (precondition) then the read of the referent *)
+Definition ref_deref (cs : list Z) (sr : var) (p : option rtgt) : res Z :=
+  rbind (ref_star p) (tgt_read cs sr).
 
 (** * unexpected.hpp : a wrapper around one E; swap is etl::swap on the two errors *)
 Definition ustate := (Z * Z * Z)%type.
